@@ -7,6 +7,10 @@
 (*                                                                         *)
 (*   kind = "map"            results handed over all at once, in           *)
 (*                           submission order, once every task is done     *)
+(*   kind = "apply"          apply / apply_async / map_async: like "map",  *)
+(*                           but only when the caller asks (get()); an     *)
+(*                           exception of a task stays in the result       *)
+(*                           object until then (wait() never raises)       *)
 (*   kind = "imap"           result k handed over when k is done and k-1   *)
 (*                           has been handed over                          *)
 (*   kind = "imap_unordered" results handed over in completion order       *)
@@ -29,7 +33,8 @@ AllDelivered(c) == Len(c.del) = c.n
 
 \* the set of task numbers whose result may be handed to the parent next
 Deliverable(c) ==
-  CASE c.kind = "map"  -> IF AllDone(c) /\ Len(c.del) < c.n THEN {Len(c.del) + 1} ELSE {}
+  \* "apply": apply / apply_async / map_async / starmap -- one job whose results are handed over together, by get()
+  CASE c.kind \in {"map", "apply"} -> IF AllDone(c) /\ Len(c.del) < c.n THEN {Len(c.del) + 1} ELSE {}
     [] c.kind = "imap" -> IF Len(c.del) < c.n /\ c.st[Len(c.del) + 1] = "done"
                           THEN {Len(c.del) + 1} ELSE {}
     [] c.kind = "imap_unordered" -> IF Len(c.del) < Len(c.fin) THEN {c.fin[Len(c.del) + 1]} ELSE {}
@@ -42,5 +47,5 @@ CallOK(c, W) ==
   /\ \A i \in DOMAIN c.fin : c.st[c.fin[i]] = "done"
   /\ \A i \in DOMAIN c.del : c.st[c.del[i]] = "done"
   /\ \A i, j \in DOMAIN c.del : i # j => c.del[i] # c.del[j]
-  /\ (c.kind \in {"map", "imap"} => \A i \in DOMAIN c.del : c.del[i] = i)
+  /\ (c.kind \in {"map", "imap", "apply"} => \A i \in DOMAIN c.del : c.del[i] = i)
 =============================================================================
